@@ -34,7 +34,7 @@ check("C14", "DESIGN.md 5/C14",
       "what the public configuration at the time of the call prescribes (so a disabled operator is rejected on every history, also after "
       "reconfiguration and cloning); two seeded design errors of the model are required to violate the laws (non-vacuity); multistage "
       "stages are modelled (Wilkinson.tla evaluates on Structured trees). Random behaviours of ParserSession (tlc -simulate, histories of 10 calls) "
-      "are replayed like the enumerated ones. A list of 88 hand-written probes (deep nesting, huge exponents, unreadable fragments, lone surrogates, "
+      "are replayed like the enumerated ones. A list of about a hundred hand-written probes (deep nesting, huge exponents, unreadable fragments, lone surrogates, "
       "quote characters inside quoted names) is parsed under every configuration and judged by the same outcome law.",
       "Trusted: ast.parse as oracle of fragment validity, lexical classes from the documented regexes. Bounded: strings <= 3-4 chars "
       "(quick) / <= 4-6 (thorough) exhaustively, fuzzed strings up to 120 chars, parser histories of <= 3 / 4 calls on two objects. "
